@@ -60,6 +60,8 @@ pub fn scenarios() -> Vec<Script> {
         Script { name: "stop at thread start".into(), lines: vec![n(&p0), n("go infinite"), n("stop"), w("quit")] },
         Script { name: "command between bestmove and flag reset".into(), lines: vec![n(&p0), n("go depth 1"), w(&p1), w("go depth 1"), w("quit")] },
         Script { name: "go again after a self-terminated search with a live timer".into(), lines: vec![n(&p0), n("go movetime 1 depth 1"), w(&p1), w("go infinite"), n("isready"), n("stop"), w("quit")] },
+        Script { name: "live timer of a stopped search, then an unlimited search".into(), lines: vec![n(&p0), n("go movetime 1"), n("stop"), w(&p1), w("go infinite"), n("isready"), n("stop"), w("quit")] },
+        Script { name: "live timer of a finished search, then a depth-limited search".into(), lines: vec![n(&p0), n("go movetime 1 depth 1"), w(&p1), w("go depth 1"), w(&p0), w("go depth 1"), w("quit")] },
         Script { name: "ucinewgame mid-search".into(), lines: vec![n(&p0), n("go infinite"), n("ucinewgame"), w(&p1), w("go depth 1"), w("quit")] },
         Script { name: "quit mid-search".into(), lines: vec![n(&p0), n("go infinite"), n("quit")] },
         Script { name: "clock go, then the next move of the game".into(), lines: vec![n(&p0), n("go wtime 1000 btime 1000 winc 0 binc 0"), w(&p1), w("go wtime 900 btime 1000 winc 0 binc 0"), w("quit")] },
@@ -385,7 +387,10 @@ pub fn script_from_json(j: &J) -> Result<Script, String> {
 
 /// explore one script; fold the result into acc
 pub fn explore_script(s: &Script, bound: usize, oracle_fn: &dyn Fn(&Exec) -> Option<String>, prop_tag: &str, acc: &mut Acc) {
+    // scripts about timers that outlive their search are explored with the sleeping-timer cost model
+    sched::SLEEPY_TIMERS.store(s.name.contains("live timer") || s.name.contains("stale timer"), std::sync::atomic::Ordering::Relaxed);
     let r = sched::explore(&s.lines, bound, HORIZON, oracle_fn, 200_000);
+    sched::SLEEPY_TIMERS.store(false, std::sync::atomic::Ordering::Relaxed);
     acc.states += 1;
     acc.evaluations += r.executions;
     acc.transitions += r.decisions;
@@ -681,13 +686,15 @@ pub fn real_sessions(acc: &mut Acc) -> Option<String> {
 }
 
 pub fn run(tier: &str, seed: i64) -> Outcome {
-    let nshards = 16;
+    // many small shards handed to a pool of 16 worker processes: the few scripts explored with sleeping timers cost
+    // 100x an ordinary one and would otherwise decide the wall time of their shard
+    let nshards = 96;
     let args: Vec<Vec<String>> = (0..nshards).map(|i| vec!["C14".to_string(), tier.to_string(), seed.to_string(), "--worker".to_string(), format!("--shard={}/{}", i, nshards)]).collect();
     let t0 = std::time::Instant::now();
-    let acc = run_workers(&self_exe(), args, nshards);
+    let acc = run_workers(&self_exe(), args, 16);
     let n = all_scripts(tier).len();
     let bound = if tier == "quick" { 2 } else { 3 };
-    let reports = vec![SpaceReport { name: format!("E5: {} scripts (all words of length <= {} over the 9-command alphabet after `position P0`, eager and reactive GUI, plus 10 scenario scripts) x all interleavings with deviation cost <= {}", n, if tier == "quick" { 3 } else { 4 }, bound), states: acc.states, exhaustive: !acc.counts.contains_key("scripts whose exploration hit the execution cap (not exhaustive for them)"), note: format!("[{:.1}s, 16 worker processes]", t0.elapsed().as_secs_f64()) }];
+    let reports = vec![SpaceReport { name: format!("E5: {} scripts (all words of length <= {} over the 9-command alphabet after `position P0`, eager and reactive GUI, plus 12 scenario scripts) x all interleavings with deviation cost <= {}", n, if tier == "quick" { 3 } else { 4 }, bound), states: acc.states, exhaustive: !acc.counts.contains_key("scripts whose exploration hit the execution cap (not exhaustive for them)"), note: format!("[{:.1}s, 16 worker processes]", t0.elapsed().as_secs_f64()) }];
     let (mut acc, mut reports) = (acc, reports);
     let t1 = std::time::Instant::now();
     let deep = deep_sessions(tier);
